@@ -269,6 +269,8 @@ RULES = [
 
 from . import shared
 RULES = RULES + shared.bundle('C04', [], ['resolution', 'resolution2d'])
+from . import folds as _folds
+RULES = RULES + [_folds.fold_rule('C04')]
 
 
 def run(tier="quick", replay=None):
